@@ -33,10 +33,10 @@ Inductive value :=
 | VSlice (l : list (option value))
 | VString (s : list N).
 
-Definition ovalue := option value.
-Definition pair_t := (option value * option value)%type.
-Definition bucket_t := list pair_t.
-Definition table_t := list (N * bucket_t).
+Notation ovalue := (option value) (only parsing).
+Notation pair_t := (option value * option value)%type (only parsing).
+Notation bucket_t := (list (option value * option value)) (only parsing).
+Notation table_t := (list (N * list (option value * option value))) (only parsing).
 
 (* ---- kinds (value.go) ---- *)
 Definition width_kind (base : N) (w : width) : N :=
